@@ -376,6 +376,8 @@ pub enum EndReason {
     /// quit / end-of-input was seen, the input thread did not return, and other threads
     /// have meanwhile done more than EXIT_ALLOW_TICKS of work.
     ExitOverdue,
+    /// the input thread sat in a join while other threads did more than EXIT_ALLOW_TICKS of work
+    InputBlocked,
 }
 
 #[derive(Clone, Debug)]
@@ -388,6 +390,8 @@ pub struct ThreadRec {
     pub first_abort: Option<(Site, u8, u64)>,
     pub inserts_before_abort: [u64; 3],
     pub inserts_after_abort: u64,
+    /// inserts made when the node counter had already reached the node budget
+    pub inserts_over_budget: u64,
     pub abort_sites: [u64; 4],
 }
 
@@ -478,6 +482,7 @@ struct State {
     exit_req_ticks: Option<u64>,
     /// ticks at the moment the input thread blocked (None while it is not blocked)
     t0_blocked_ticks: Option<u64>,
+    t0_in_join: bool,
     preempts_applied: u64,
 }
 
@@ -520,6 +525,7 @@ fn new_trec() -> ThreadRec {
         first_abort: None,
         inserts_before_abort: [0; 3],
         inserts_after_abort: 0,
+        inserts_over_budget: 0,
         abort_sites: [0; 4],
     }
 }
@@ -699,6 +705,7 @@ impl Kernel {
             deliveries: 0,
             exit_req_ticks: None,
             t0_blocked_ticks: None,
+            t0_in_join: false,
             preempts_applied: 0,
         };
         self.clock.store(0, Relaxed);
@@ -1119,11 +1126,22 @@ impl Kernel {
         }
         // Only time during which the input thread is BLOCKED counts (a runnable thread that the
         // scheduler keeps waiting is the scheduler's doing, not the engine's).
-        if let (Some(req), Some(b)) = (st.exit_req_ticks, st.t0_blocked_ticks) {
-            if me != 0 && self.ticks.load(Relaxed).saturating_sub(b.max(req)) > EXIT_ALLOW_TICKS {
-                self.end_run(st, EndReason::ExitOverdue);
-                drop(g);
-                std::panic::resume_unwind(Box::new(AbortRun));
+        if let Some(b) = st.t0_blocked_ticks {
+            let since = st.exit_req_ticks.map_or(b, |req| b.max(req));
+            if me != 0 && self.ticks.load(Relaxed).saturating_sub(since) > EXIT_ALLOW_TICKS {
+                let why = if st.exit_req_ticks.is_some() {
+                    EndReason::ExitOverdue
+                } else if st.t0_in_join {
+                    EndReason::InputBlocked
+                } else {
+                    // a GUI wait (not the engine's doing): nothing to report
+                    EndReason::StepCap
+                };
+                if why != EndReason::StepCap {
+                    self.end_run(st, why);
+                    drop(g);
+                    std::panic::resume_unwind(Box::new(AbortRun));
+                }
             }
         }
         if st.threads.len() == 1 {
@@ -1169,6 +1187,7 @@ impl Kernel {
         if me == 0 {
             self.push_ev(st, me, EvK::WaitBegin(what.to_string()));
             st.t0_blocked_ticks = Some(self.ticks.load(Relaxed));
+            st.t0_in_join = matches!(cond, Cond::Join(_));
         }
         st.threads[me].status = Status::Blocked(cond);
         st.hold = 0;
@@ -1179,6 +1198,7 @@ impl Kernel {
                 if me == 0 {
                     if let Some(st) = g.as_mut() {
                         st.t0_blocked_ticks = None;
+                        st.t0_in_join = false;
                     }
                 }
             }
@@ -1501,6 +1521,9 @@ impl Sim for Kernel {
         }
         let mut g = self.lock();
         if let Some(st) = g.as_mut() {
+            if budget.is_some_and(|b| nodes >= b) {
+                st.threads[me].rec.inserts_over_budget += 1;
+            }
             if st.threads[me].rec.first_abort.is_some() {
                 st.threads[me].rec.inserts_after_abort += 1;
                 if st.threads[me].rec.inserts_after_abort <= 4 {
